@@ -409,7 +409,7 @@ def r3_refusal(ctx, F):
         bad = []
         n = 0
         for c in live_calls(b):
-            if c.name in ("from_raw_os_error", "is_none", "as_ref", "cloned", "ok_or_else", "branch", "from_residual"):
+            if c.name in ("from_raw_os_error", "is_none", "as_ref", "cloned", "ok_or_else", "branch", "from_residual") or common.is_log_call(c):
                 continue
             n += 1
             g = [(R(x, b, v), l) for (x, l, u) in v.guards(c.bb)]
